@@ -66,8 +66,11 @@ pub fn create_quic_client(tls: &TlsClientConfig, enable_bbr: bool) -> Result<Cli
 
     let mut transport_config = quinn::TransportConfig::default();
     transport_config.max_concurrent_uni_streams(0u8.into());
-    transport_config.keep_alive_interval(Some(Duration::from_secs(30)));
-    transport_config.max_idle_timeout(Some(Duration::from_secs(3600).try_into().unwrap()));
+    // the connection is shared by all requests and kept alive by pings, so a short idle
+    // timeout only ever fires when the peer is gone; without it a restarted peer is
+    // noticed after an hour
+    transport_config.keep_alive_interval(Some(Duration::from_secs(10)));
+    transport_config.max_idle_timeout(Some(Duration::from_secs(30).try_into().unwrap()));
     if enable_bbr {
         transport_config.congestion_controller_factory(Arc::new(congestion::BbrConfig::default()));
     }
